@@ -158,6 +158,8 @@ def recipe_of(req: dict) -> dict:
         pts = "int12" + ("" if req["hid"] == "none" else "+" + req["hid"])
     elif t == "expr_two_mesh":
         pts = "tri6" + ("" if req["hid"] == "none" else "+" + req["hid"])
+    elif t.startswith("expr_lit"):
+        pts = "tri6"
     return {"tmpl": t, "n": req["n"], "pts": pts, "opt": req["opt"], "flag": req["flag"]}
 
 
@@ -670,6 +672,15 @@ def run_c12(chk):
                  and x["events"][0] == {"act": "CreateJunk", "kind": "mesh"} and gen0(x["events"][1], "default")]
     must += [x for x in cand if len(x["events"]) == 1 and x["seed"] == 0 and x["events"][0]["act"] == "Generate"
              and x["events"][0]["route"] == 9 and x["events"][0]["opt"] == "default"]
+    # the same objects generated twice in one process under a non-default option vector (shared options dict, memo
+    # tables, counters: whatever the first generation leaves behind meets the second)
+    tp = [t for t in tmpl if t.startswith("tp_")]
+    rep = [x for x in cand if x["seed"] == 0 and len(x["events"]) == 2 and x["events"][0] == x["events"][1]
+           and gen0(x["events"][0], "sumfact") and x["events"][0]["tmpl"] in tp]
+    if not rep:      # (the enumerated histories may not contain it: the life is well-formed for any History.tla process)
+        rep = [{"seed": 0, "conf": "none", "events": [{"act": "Generate", "tmpl": t, "route": 0, "opt": "sumfact"}] * 2} for t in tp[:1 if quick else 2]]
+    cand += [x for x in rep if x not in cand]
+    must += rep
     # "B after A in one process" against "B alone" for every ordered pair of a group (thorough: of all group templates)
     group_of = {t: g_ for g_, ts in meta.GROUPS.items() for t in ts}
     npairs = 0
@@ -734,6 +745,10 @@ def c13_axes(quick):
                                                                                 "expr_two_mesh"]),
                      Vis=["tri6"], Hid=["none"], Opt=["default", "float32"] if quick else ["default", "float32", "epsilon"],
                      Flag=["O2"], MaxObjs=1, Conf=list(meta.CONF)[:6] if quick else list(meta.CONF)),
+        # expressions that differ in one literal, requested one after the other in one process (each object is dead
+        # when the next one is built: anything remembered per object identity is then remembered for the wrong object)
+        "exprlit": dict(Sig=["expr_lit2", "expr_lit3", "expr_lit4", "expr_lit5"], Vis=["tri6"], Hid=["none"], Opt=["default"],
+                        Flag=["O2"], MaxObjs=1),
         # objects living on two meshes: named under every seed and with several id offsets (routes)
         "twomesh": dict(Sig=meta.REQ_TWO_MESH, Vis=["tri6"], Hid=["none"], Opt=["default"], Flag=["O2"], MaxObjs=1),
         "listing": dict(Sig=(some if quick else forms) + ["expr_tri"], Vis=["tri6", "tri6_dyadic"], Hid=["none", "eps"],
